@@ -309,7 +309,3 @@ def run(ctx: core.Ctx) -> core.Report:
     rep.sample({"interval": scenarios[0][0], "ops": scenarios[0][1][:30]})
     return rep
 
-
-def replay(ctx, data):
-    print(data)
-    return 0
